@@ -648,6 +648,7 @@ func runConc(args []string) {
 	}
 	pubsubHandover(seed, ho, want, enc)
 	pubsubPrune(seed, ho, want, enc)
+	pubsubStall(seed, want, enc)
 	bv := rounds
 	if bv > 3 && os.Getenv("VERIF_TIER") != "thorough" {
 		bv = 3
